@@ -4,6 +4,7 @@ package main
 import (
 	"cuelang.org/go/internal/verif/core"
 	_ "cuelang.org/go/internal/verif/h/c01"
+	_ "cuelang.org/go/internal/verif/h/c02"
 	_ "cuelang.org/go/internal/verif/h/c09"
 )
 
